@@ -1,6 +1,6 @@
 From Mds Require Import Common.ExtractBase Gen.MapsetFacts Mapset.MapsetModel.
 Require Extraction.
 Require Import ExtrOcamlBasic.
-Extraction "mapset_model.ml" MapsetModel.run_trace MapsetModel.run MapsetModel.step MapsetModel.store0
-  MapsetModel.intersects_operands MapsetModel.intersect_operand MapsetModel.m_keys MapsetModel.Len
+Extraction "mapset_model.ml" MapsetModel.run_trace MapsetModel.run MapsetModel.step MapsetModel.store0 MapsetModel.next0 MapsetModel.bump
+  MapsetModel.intersects_operands MapsetModel.intersect_operand MapsetModel.m_keys MapsetModel.m_ptr MapsetModel.Len
   MapsetModel.IsEmpty MapsetModel.Has base_types.
